@@ -6,18 +6,23 @@ from .parsers_util import *
 RULE = ("udpenc (client and server encoder): sizes {0,1,2,255,256,8190..8194,65505..65507,65534,65535,65536,70000}; udpdec (client "
         "and server reader loop): sequences of 1-50 datagrams with those sizes, every 2-way split of short streams (so the 2-byte "
         "prefix is split), byte-at-a-time, random k-way splits with empty chunks, truncated tails, an empty datagram in the "
-        "middle, open and closed streams, arbitrary bytes; udpinit: the association's target for IPv4/IPv6/seeded names. "
+        "middle, open and closed streams, arbitrary bytes; udpinit: the association's target for IPv4/IPv6/seeded names; udpe2e: "
+        "lock-step echo app -> create_udp_proxy -> stream -> real server handler -> loopback UDP target and back (sizes up to 65507). "
         "Non-trivial = >= 2 datagrams, or a split inside a length prefix, or a size >= 65505, or a truncated tail; distinct by sha256.")
-SIDE_LEMMAS = 2
+SIDE_LEMMAS = 4
 ASSUMPTIONS = ["UDP socket send/recv (tokio UdpSocket) deliver one datagram per call (OS); the proofs cover the framing and the reader loops on both sides",
-               "an EMPTY datagram ends the direction (len 0 is read as 'stream might be closed' on both sides): outside the property's quantifier (sizes 1..65507), reported to the coordinator",
+               "whether an empty datagram ends a direction and whether the server socket follows the target's address family are regenerated from the sources (Generated.udp_empty_datagram_ends_*, udp_server_bind_follows_target) and exercised end to end by udpe2e",
                "model tied to udp_client.rs / udp_proxy.rs by differential execution on the cases counted below (sampling)"]
 Case = Case
 SIZES = [1, 2, 255, 256, 8190, 8191, 8192, 8193, 8194, 65505, 65506, 65507]
 
 
 def corpus_cases():
-    return corpus("C15")
+    cs = corpus("C15")
+    for c in cs:
+        if c.drv in ('udpe2e',):
+            c.model = False      # end-to-end drivers have no model side (oracle only)
+    return cs
 
 
 def frame(d):
@@ -30,8 +35,6 @@ def ref_loop(data, eof):
         if len(data) - p < 2:
             break
         ln = int.from_bytes(data[p:p + 2], "big")
-        if ln == 0:
-            return out, "END STOP"
         if len(data) - p - 2 < ln:
             break
         out.append(data[p + 2:p + 2 + ln])
@@ -74,15 +77,16 @@ def gen_cases(tier, seed):
         add("udpdec", [side, 1] + chunks_arg(bytewise(stream)), "dec-bytewise", True)
         for cut in range(len(stream)):
             add("udpdec", [side, cut % 2] + chunks_arg(frag(r, stream[:cut], 3)), "dec-truncated", True)
-        # empty datagram in the middle
+        # empty datagrams in the middle: forwarded like any other, later datagrams are not lost
         add("udpdec", [side, 0] + chunks_arg(frag(r, frame(b"x") + frame(b"") + frame(b"y"), 3)), "dec-empty-datagram", True)
         add("udpdec", [side, 1] + chunks_arg([frame(b"")]), "dec-empty-datagram", True)
+        add("udpdec", [side, 0] + chunks_arg(bytewise(frame(b"") + frame(b"") + frame(b"z") + frame(b""))), "dec-empty-datagram", True)
         # sequences
         for i in range(40 if quick else 1500):
             k = r.randint(1, 50) if r.random() < 0.2 else r.randint(1, 6)
             ds = []
             for j in range(k):
-                ln = r.choice(SIZES) if r.random() < (0.05 if quick else 0.2) else r.randint(1, 400)
+                ln = r.choice(SIZES) if r.random() < (0.05 if quick else 0.2) else (0 if r.random() < 0.08 else r.randint(1, 400))
                 ds.append(tagged(ln, j))
             stream = b"".join(frame(d) for d in ds)
             if r.random() < 0.3:
@@ -98,10 +102,21 @@ def gen_cases(tier, seed):
         for p in (0, 53, 65535):
             wire = b"\x01" + enc_dest(kind, val, p) + frame(b"first")
             add("udpinit", [seedname, 0] + chunks_arg(frag(r, wire, 4)), "target", True)
+    # end to end, lock-step echo through Client::create_udp_proxy and the real server handler (IPv4 target)
+    add("udpe2e", [4, 1, 2, 255, 256, 8190, 8192, 8194, 65505, 65506, 65507, 1], "e2e-boundaries", True, model=False)
+    add("udpe2e", [4, 5, 0, 7, 0, 0, 3], "e2e-empty-datagrams", True, model=False)
+    add("udpe2e", [6, 1, 255, 0, 1400, 9000, 65507, 2], "e2e-ipv6-target", True, model=False)
+    add("udpe2e", [4] + [r.randint(1, 1400) for _ in range(30)], "e2e-sequence", True, model=False)
+    for _ in range(2 if quick else 40):
+        add("udpe2e", [4] + [r.choice(SIZES) if r.random() < 0.2 else r.randint(1, 9000) for _ in range(r.randint(3, 12))], "e2e-sequence", True, model=False)
     return cs
 
 
 def oracle(c, ir):
+    if c.drv == "udpe2e":
+        sizes = c.args[1:]
+        exp = " ".join("%s:t:t" % n for n in sizes) + " TARGETN=%d" % len(sizes)
+        return None if ir.strip() == exp else "datagrams through the association: got %s expected %s" % (ir[:300], exp[:300])
     if c.drv == "udpenc":
         d = unhx(c.args[1])
         if len(d) > 65535:
